@@ -106,13 +106,18 @@ def run_circuit(ctx, case):
     # the input state may itself be trainable (chained circuits): its gradient is pulled back through the whole circuit
     s_re = torch.tensor(s_np.real.copy(), requires_grad=train_input)
     s_im = torch.tensor(s_np.imag.copy(), requires_grad=train_input)
-    P = {key: torch.nn.Parameter(torch.tensor(np.array(v, dtype=np.float64))) for key, v in Pvals.items()}
+    # placeholder tensors are either trainable parameters or plain data (requires_grad=False, "data encoding" next to trainable gates)
+    data_P = bool(case['frozen'] & 4)
+    if data_P:
+        P = {key: torch.tensor(np.array(v, dtype=np.float64)) for key, v in Pvals.items()}
+    else:
+        P = {key: torch.nn.Parameter(torch.tensor(np.array(v, dtype=np.float64))) for key, v in Pvals.items()}
 
     class M(torch.nn.Module):
         def __init__(self):
             super().__init__()
             self.ct = nq.sim.CircuitTorchWrapper(circ)
-            self.P = torch.nn.ParameterDict({('root' if k_ == '' else k_): v for k_, v in P.items()})
+            self.P = torch.nn.ParameterDict({('root' if k_ == '' else k_): v for k_, v in P.items()}) if not data_P else None
 
         def forward(self):
             if P:
@@ -125,6 +130,13 @@ def run_circuit(ctx, case):
             a = torch.vdot(tvec, q)
             return (a * a.conj()).real if case['loss'] == 'abs2' else a.real
     model = M()
+    if P and data_P:
+        ctx.label('placeholder = data tensor (no grad)')
+    # freeze one whole stacked parameter tensor of the wrapper (by gate name) while tensors of other names stay trainable
+    names = sorted(model.ct.theta.keys()) if hasattr(model.ct, 'theta') else []
+    if len(names) >= 2 and (case['frozen'] & 2):
+        model.ct.theta[names[case['prng'] % len(names)]].requires_grad_(False)
+        ctx.label('one gate name frozen in the wrapper')
     params = [p for p in model.parameters() if p.requires_grad] + ([s_re, s_im] if train_input else [])
     if train_input:
         sig.add('trainable input state')
@@ -329,7 +341,7 @@ def run_mf(ctx, case):
 # --------------------------------------------------------------------------------------------- losses built on the custom operators
 @st.composite
 def _strat_loss(draw, tier='quick'):
-    return dict(kind=draw(st.sampled_from(['polar', 'relent', 'entropy', 'eof_model', 'concurrence_model', 'varqec', 'flat_bridge', 'flat_bridge'])), d=draw(st.integers(2, 4)),
+    return dict(kind=draw(st.sampled_from(['polar', 'relent', 'relent_first', 'relent_both', 'entropy', 'eof_model', 'concurrence_model', 'varqec', 'flat_bridge', 'flat_bridge'])), d=draw(st.integers(2, 4)),
                 r=draw(st.integers(1, 4)), field=draw(st.sampled_from(['real', 'complex'])), prng=draw(st.integers(0, 2 ** 31)))
 
 
@@ -346,14 +358,20 @@ def run_loss(ctx, case):
         W = torch.tensor(ref.rand_complex(r, d + 1, rk))
         f = lambda: (man() * W).sum().real
         params = [man.theta]
-    elif kind in ('relent', 'entropy'):
+    elif kind in ('relent', 'relent_first', 'relent_both', 'entropy'):
         man = nq.manifold.Trace1PSD(d, dtype=torch.complex128)
         rho = torch.tensor(ref.rand_dm(r, d))
+        params = [man.theta]
         if kind == 'relent':
             f = lambda: nq.utils.get_relative_entropy(rho, man(), None, ('pade', 6, 8))
+        elif kind == 'relent_first':  # S(rho(theta) || sigma): the Tr rho log rho term is computed inside and depends on theta
+            f = lambda: nq.utils.get_relative_entropy(man(), rho, None, ('pade', 6, 8))
+        elif kind == 'relent_both':
+            man2 = nq.manifold.Trace1PSD(d, dtype=torch.complex128)
+            f = lambda: nq.utils.get_relative_entropy(man(), man2(), None, ('pade', 6, 8))
+            params = [man.theta, man2.theta]
         else:
             f = lambda: nq.utils.get_von_neumann_entropy(man(), ('pade', 6, 8))
-        params = [man.theta]
     elif kind in ('eof_model', 'concurrence_model'):
         rho = ref.rand_dm(r, 4, rk)
         cls = nq.entangle.EntanglementFormationModel if kind == 'eof_model' else nq.entangle.ConcurrenceModel
@@ -415,7 +433,7 @@ def run_loss(ctx, case):
     loss.backward()
     got = [None if p.grad is None else p.grad.detach().numpy().copy() for p in params]
     want = fd_grad(f, params)
-    compare_grads(ctx, got, want, f'{kind}: gradient = finite differences', 1e-5 if kind in ('relent', 'entropy') else 1e-6)
+    compare_grads(ctx, got, want, f'{kind}: gradient = finite differences', 1e-5 if kind in ('relent', 'relent_first', 'relent_both', 'entropy') else 1e-6)
     # the flat bridge on the same loss
     if kind in ('eof_model', 'concurrence_model', 'varqec'):
         hf = nq.optimize.hf_model_wrapper(model)
